@@ -98,6 +98,81 @@ def configTerm (t : Bytes) : Bool :=
     | c :: r => (prevOK && hasPrefix (c :: r) pat) || go (asciiSpace c || c == 40) r
   plain t && go true t
 
+/-! ### simple projections: blank/comma separated `key` or `key@order`, words plain or quoted-plain
+
+This class states the "unknown sort order is always rejected" clause for order names written in
+any simple way, including quoted and EMPTY ones (`a@""`), and conversely that a simple projection
+with documented orders is accepted. -/
+
+def keyByte (c : UInt8) : Bool := plainWordByte c || c == 47
+
+/-- a plain word, or a double-quoted run of plain bytes (possibly empty): its content -/
+def simpleWord (w : Bytes) : Option Bytes :=
+  match w with
+  | [] => none
+  | c :: r =>
+    if c == 34 then
+      match r.reverse with
+      | d :: inner => if d == 34 && inner.all keyByte then some inner.reverse else none
+      | [] => none
+    else if w.all keyByte then some w else none
+
+/-- `key` or `key@order` -/
+def simpleField (p : Bytes) : Option (Bytes × Option Bytes) :=
+  let k := p.takeWhile (· != 64)
+  match p.dropWhile (· != 64) with
+  | [] => (simpleWord k).map fun k => (k, none)
+  | _ :: o =>
+    if has o 64 then none
+    else match simpleWord k, simpleWord o with
+      | some k, some o => some (k, some o)
+      | _, _ => none
+
+def simpleProj (t : Bytes) : Option (List (Bytes × Option Bytes)) :=
+  if has t 40 || has t 41 || has t 92 || !t.all (· < 0x80) then none
+  else
+    let chunks := (splitOn asciiSpace t []).filter (!·.isEmpty)
+    let pieces := chunks.flatMap fun c => splitOn (· == 44) c []
+    if pieces.isEmpty then none else pieces.mapM simpleField
+
+def acceptableOrder (o : Bytes) : Bool := documentedOrder o || o == Bytes.ofString "first"
+
+/-- some field of a simple projection names an order that does not exist (also `""`, `"x"`, `fixed`),
+has the key `.unit`, or an empty key -/
+def simpleProjBad (fs : List (Bytes × Option Bytes)) : Option String :=
+  if fs.any (fun f => match f.2 with | some o => !acceptableOrder o | none => false) then some "order"
+  else if fs.any (fun f => f.1 == Bytes.ofString ".unit") then some "unit"
+  else if fs.any (fun f => f.1.isEmpty) then some "emptykey"
+  else none
+
+/-- a simple projection with nothing wrong must be accepted (bare AND / OR are operators, not keys:
+no demand then) -/
+def mustAcceptProj (t : Bytes) : Bool :=
+  match simpleProj t with
+  | some fs => simpleProjBad fs == none &&
+      !fs.any (fun f => f.1 == Bytes.ofString "AND" || f.1 == Bytes.ofString "OR" ||
+        f.2 == some (Bytes.ofString "AND") || f.2 == some (Bytes.ofString "OR"))
+  | none => false
+
+/-! ### denotation of filters built from one key and several spellings of words -/
+
+/-- one term `[-]k:<word>`: negated?, form (76 'L' literal bare-or-quoted, 81 'Q' quoted, 82 'R'
+regexp `/word/`), the word -/
+structure DTerm where
+  neg : Bool
+  form : UInt8
+  word : Bytes
+
+/-- does the term hold for a result whose value is `probe`?  A literal — however it is spelled —
+matches exactly its own text; a regexp matches what the regexp oracle `rm` says. -/
+def dtermHolds (t : DTerm) (probe : Bytes) (rm : Bool) : Bool :=
+  let m := if t.form == 82 then rm else probe == t.word
+  if t.neg then !m else m
+
+/-- `conn`: 0 = OR of the terms (also the `k:(a OR b)` list form), 1 = AND -/
+def denote (conn : Nat) (ts : List (DTerm × Bool)) (probe : Bytes) : Bool :=
+  if conn == 1 then ts.all (fun p => dtermHolds p.1 probe p.2) else ts.any (fun p => dtermHolds p.1 probe p.2)
+
 def mustRejectFilter (t : Bytes) : Option String :=
   if unbalancedParens t then some "unbalanced"
   else if unterminatedQuote t then some "quote"
@@ -116,7 +191,10 @@ def mustRejectProj (t : Bytes) : Option String :=
   else match keyAtOrder t with
     | some o => if documentedOrder o || o == Bytes.ofString "first" then none
                 else some "order"
-    | none => none
+    | none =>
+      match simpleProj t with
+      | some fs => simpleProjBad fs
+      | none => none
 
 /-- a string usable as the name of a file-configuration key -/
 def usableKey (s : Bytes) : Bool :=
